@@ -384,6 +384,17 @@ func (pp *Prepass) instrWrites(fn *ssa.Function, ins ssa.Instruction, ws KeySet)
 			for _, g := range fc.Ghosts {
 				ws["G:"+g.Map] = true
 			}
+			for _, m := range fc.Modifies {
+				e := m.Expr
+				if e.Kind == "index" {
+					e = e.Args[0]
+				}
+				if e.Kind == "ident" {
+					if _, ok := pp.prog.Contracts.GhostMaps[e.Name]; ok {
+						ws["G:"+e.Name] = true
+					}
+				}
+			}
 			if len(fc.LockFx) > 0 && fn != nil {
 				pp.LockTouch[fn] = true
 			}
@@ -566,6 +577,30 @@ func calleeName(cc *ssa.CallCommon) string {
 		return "builtin." + v.Name()
 	}
 	return ""
+}
+
+// KeysWithPrefix lists all heap keys (fields of the loaded packages, memory
+// cells, slice/map contents) whose name starts with prefix.
+func (pp *Prepass) KeysWithPrefix(prefix string) []string {
+	set := KeySet{}
+	regMu.Lock()
+	for k := range fieldTypeRegistry {
+		if pp.AddrTaken[k] {
+			continue
+		}
+		if strings.HasPrefix(k, prefix) {
+			set[k] = true
+		}
+	}
+	regMu.Unlock()
+	for _, ws := range pp.WriteSet {
+		for k := range ws {
+			if strings.HasPrefix(k, prefix) && !strings.HasSuffix(k, "*") {
+				set[k] = true
+			}
+		}
+	}
+	return set.Sorted()
 }
 
 func (pp *Prepass) Inlinable(fn *ssa.Function) bool {
